@@ -40,9 +40,40 @@ pub struct Features {
     pub builtins: bool,
     pub time_op: bool,
     pub arith: bool,
+    /// arguments may be complex terms, floats and lists; rule heads may take complex terms apart
+    pub rich: bool,
+}
+
+thread_local! {
+    /// set while a program with the `rich` feature is being generated
+    static RICH: std::cell::Cell<bool> = std::cell::Cell::new(false);
+}
+
+fn simple_constant(rng: &mut Rng) -> Term {
+    if rng.chance(1, 2) {
+        Term::atom(*rng.pick(&ATOMS))
+    } else {
+        Term::Int(rng.range(1, 3) as i64)
+    }
+}
+
+fn rich_constant(rng: &mut Rng) -> Term {
+    match rng.below(6) {
+        0 | 1 => Term::Cplx("pair".into(), vec![simple_constant(rng), simple_constant(rng)]),
+        2 => Term::Cplx("wrap".into(), vec![Term::Cplx("pair".into(), vec![simple_constant(rng), simple_constant(rng)])]),
+        3 => Term::Float((*rng.pick(&["0.5", "2.5", "7.25"])).to_string()),
+        4 => {
+            let n = rng.range(0, 2) as usize;
+            Term::List((0..n).map(|_| simple_constant(rng)).collect(), None)
+        }
+        _ => Term::Cplx("one".into(), vec![simple_constant(rng)]),
+    }
 }
 
 fn constant(rng: &mut Rng) -> Term {
+    if RICH.with(|r| r.get()) && rng.chance(1, 3) {
+        return rich_constant(rng);
+    }
     if rng.chance(1, 2) {
         Term::atom(*rng.pick(&ATOMS))
     } else {
@@ -79,7 +110,8 @@ fn pick_arg(rng: &mut Rng, scope: &mut Vec<String>, fresh_ok: bool) -> Term {
 
 fn gen_leaf(rng: &mut Rng, ctx: &Ctx, callable: &[Pred], scope: &mut Vec<String>, allow_cut: bool) -> GoalSpec {
     let f = &ctx.feats;
-    // weights: call, unify, cmp, print, nl, cut, fail, mem, count, append, print_list, arithmetic
+    // weights: call, unify, cmp, print, nl, cut, fail, mem, count, append, print_list, arithmetic,
+    // functor, include/exclude, join
     let w = [
         if callable.is_empty() { 0 } else { 10 },
         2,
@@ -93,6 +125,9 @@ fn gen_leaf(rng: &mut Rng, ctx: &Ctx, callable: &[Pred], scope: &mut Vec<String>
         if f.builtins { 1 } else { 0 },
         if f.builtins && f.print { 1 } else { 0 },
         if f.arith { 3 } else { 0 },
+        if f.builtins && f.rich { 2 } else { 0 },
+        if f.builtins && f.rich { 2 } else { 0 },
+        if f.builtins { 1 } else { 0 },
     ];
     match rng.weighted(&w) {
         0 => {
@@ -162,6 +197,52 @@ fn gen_leaf(rng: &mut Rng, ctx: &Ctx, callable: &[Pred], scope: &mut Vec<String>
             let items = (0..n).map(|_| constant(rng)).collect();
             GoalSpec::BuiltIn("print_list".to_string(), vec![Term::List(items, None)])
         }
+        12 => {
+            // functor(T, F) / functor(T, F, A)
+            let t = if !scope.is_empty() && rng.chance(1, 3) { Term::Var(rng.pick(scope).clone()) } else { rich_constant(rng) };
+            let f = match rng.below(4) {
+                0 => Term::atom("pair"),
+                1 => Term::atom("pa*"),
+                _ => fresh(scope),
+            };
+            let mut args = vec![t, f];
+            if rng.chance(1, 2) {
+                args.push(if rng.chance(2, 3) { fresh(scope) } else { Term::Int(rng.range(1, 2) as i64) });
+            }
+            GoalSpec::BuiltIn("functor".to_string(), args)
+        }
+        13 => {
+            // include(filter, list, out) / exclude(filter, list, out)
+            let filter = match rng.below(4) {
+                0 => Term::Cplx("pair".into(), vec![Term::Anon, simple_constant(rng)]),
+                1 => Term::Cplx("pair".into(), vec![simple_constant(rng), Term::Anon]),
+                2 => Term::Anon,
+                _ => constant(rng),
+            };
+            let n = rng.range(0, 3) as usize;
+            let list = if !scope.is_empty() && rng.chance(1, 5) {
+                Term::Var(rng.pick(scope).clone())
+            } else {
+                Term::List((0..n).map(|_| constant(rng)).collect(), None)
+            };
+            let name = if rng.chance(1, 2) { "include" } else { "exclude" };
+            GoalSpec::BuiltIn(name.to_string(), vec![filter, list, fresh(scope)])
+        }
+        14 => {
+            // $V = join(t1, t2, ..): words and punctuation joined into one atom
+            let n = rng.range(1, 3) as usize;
+            let mut ts: Vec<Term> = vec![];
+            for _ in 0..n {
+                ts.push(match rng.below(5) {
+                    0 => Term::atom(*rng.pick(&[",", "?", "!", "."])),
+                    1 => Term::List(vec![simple_constant(rng), simple_constant(rng)], None),
+                    2 if !scope.is_empty() => Term::Var(rng.pick(scope).clone()),
+                    _ => simple_constant(rng),
+                });
+            }
+            let target = if rng.chance(3, 4) { fresh(scope) } else { simple_constant(rng) };
+            GoalSpec::Unify(target, Term::Func("join".to_string(), ts))
+        }
         _ => {
             // $V = op(number, number) on constants only (the arithmetic functions panic on
             // unbound or non-numeric operands); integers and floats, never a zero divisor
@@ -226,6 +307,7 @@ fn gen_features(family: &str, rng: &mut Rng) -> Features {
         builtins: rng.chance(1, 3),
         time_op: rng.chance(1, 5),
         arith: rng.chance(1, 4),
+        rich: rng.chance(1, 3),
     };
     match family {
         "C05" => {
@@ -252,6 +334,7 @@ fn gen_features(family: &str, rng: &mut Rng) -> Features {
 /// Generates the program and the list of queryable predicates.
 fn gen_program(rng: &mut Rng, feats: &Features, allow_diverger: bool) -> (Vec<Clause>, Vec<QuerySpec>) {
     let mut ctx = Ctx { feats: feats.clone(), preds: vec![], clauses: vec![] };
+    RICH.with(|r| r.set(feats.rich));
 
     // --- layer 0: fact tables ---
     let nf = rng.range(1, 3) as usize;
@@ -270,7 +353,10 @@ fn gen_program(rng: &mut Rng, feats: &Features, allow_diverger: bool) -> (Vec<Cl
         for _ in 0..n {
             let args = (0..arity)
                 .map(|k| {
-                    if feats.fact_vars && rng.chance(1, 6) {
+                    if feats.fact_vars && feats.rich && rng.chance(1, 8) {
+                        // a variable inside a complex term
+                        Term::Cplx("pair".into(), vec![Term::Var(format!("$G{}", k)), simple_constant(rng)])
+                    } else if feats.fact_vars && rng.chance(1, 6) {
                         if rng.chance(1, 2) { Term::Var(format!("$F{}", k)) } else { Term::Anon }
                     } else {
                         constant(rng)
@@ -309,7 +395,14 @@ fn gen_program(rng: &mut Rng, feats: &Features, allow_diverger: bool) -> (Vec<Cl
                 let mut scope: Vec<String> = vec![];
                 let args: Vec<Term> = (0..arity)
                     .map(|k| {
-                        if rng.chance(5, 6) {
+                        if feats.rich && rng.chance(1, 6) {
+                            // the head takes a complex term apart
+                            let v = format!("$H{}", k);
+                            let w = format!("$I{}", k);
+                            scope.push(v.clone());
+                            scope.push(w.clone());
+                            Term::Cplx("pair".into(), vec![Term::Var(v), Term::Var(w)])
+                        } else if rng.chance(5, 6) {
                             let v = format!("$H{}", k);
                             scope.push(v.clone());
                             Term::Var(v)
